@@ -62,7 +62,7 @@ def guarded_in(body, cfg, du, bb, writes_bbs):
     if not guards: return False
     falses = {f for _, f in guards}
     dominated = bb not in cfg.reach(0, blocked_edges=falses)
-    leaks = any(bb in cfg.reach(tr[2]) for tr, _ in guards)
+    leaks = any(bb in cfg.after(tr) for tr, _ in guards)
     return dominated and not leaks
 
 
@@ -263,7 +263,7 @@ def r2(cx):
     if after:
         t, c = after[-1]
         te, fe = bool_edges(t, c)
-        okd = cfg.must_pass(te[2], cfg.returns(), wr_assign - self_wr) and not any(b in cfg.reach(te[2]) for b in self_wr) \
+        okd = cfg.must_pass(te[2], cfg.returns(), wr_assign - self_wr) and not any(b in cfg.after(te) for b in self_wr) \
               and cfg.must_pass(fe[2], cfg.returns(), self_wr)
     cx.check(okd, "C04.R2", "varlink:MethodCall::send:writer-returned", send.sp,
              "after the flush the oneway edge must put the writer back into the connection (and the normal edge must keep it in the call object)",
